@@ -87,7 +87,8 @@ class LinearInterpolator(NNBase):
         """
         if len(prediction_points.shape) == 1:
             # Reshape vector to n x 1 array
-            prediction_points.shape = (1, prediction_points.shape[0])
+            # (a new view: the caller's array must keep its shape)
+            prediction_points = prediction_points.reshape(1, prediction_points.shape[0])
 
         normalized_pts = (prediction_points - self._tpm) / self._tpr
 
@@ -135,7 +136,8 @@ class LinearInterpolator(NNBase):
         """
         if len(prediciton_points.shape) == 1:
             # Reshape vector to n x 1 array
-            prediciton_points.shape = (1, prediciton_points.shape[0])
+            # (a new view: the caller's array must keep its shape)
+            prediciton_points = prediciton_points.reshape(1, prediciton_points.shape[0])
 
         normPredPts = (prediciton_points - self._tpm) / self._tpr
         nppts = normPredPts.shape[0]
